@@ -365,8 +365,9 @@ def order_rule(prog, chk):
         for bb, t in its:
             fl = flow_back(fb, d, t.args[0], all_args=False)
             if any("items" in f.field_path() for f in fl):
-                extra = sorted(v for v in ({v for f in fl for v in f.via} - {t.best_callee() or t.callee})
-                               if not v.endswith(("Vector::iter", "Deref>::deref", "IntoIterator>::into_iter", "IntoIterator::into_iter", "Iterator::by_ref")))
+                # order-preserving adapters (skip/take/filter/…) are R20.1/R20.5's business; here only what reorders
+                extra = sorted(v for v in {v for f in fl for v in f.via}
+                               if v.endswith(("Iterator::rev", "::rev")) or "sort" in v.rsplit("::", 1)[-1] or "Hash" in v or "BTree" in v or "BinaryHeap" in v)
                 if not extra:
                     good = True
                 else:
